@@ -135,6 +135,17 @@ Definition arg_log (ser : string -> pyval -> pyval) (S : schema) (t : gtype) (v 
   | None => Some []
   end.
 
+(* custom_arguments.py _generate_return_arg_value (enable_custom_operations): whatever list / non-null wrappers the
+   argument type has, the value is `serialize(x) if x is not None else None` - the whole argument (finding F15) *)
+Definition custom_arg_log (S : schema) (t : gtype) (v : pyval) : list (string * pyval) :=
+  match var_ser S t with
+  | Some f => match v with PNone => [] | _ => [(f, v)] end
+  | None => []
+  end.
+
+Fixpoint has_list (t : gtype) : bool :=
+  match t with TNamed _ => false | TList _ => true | TNonNull t' => has_list t' end.
+
 (* ---- specification: the occurrences the property speaks about ---- *)
 (* non-null occurrences of a scalar with parse configured inside a value conformant to type t *)
 Fixpoint occ_parse (S : schema) (t : gtype) (nn : bool) (j : json) : option (list (string * json)) :=
